@@ -42,7 +42,8 @@ def run(v):
         tr = os.path.join(d, "trace_%d.ndjson" % ci)
         p = run_bin("record", ["der", tr, "seed=%d" % (v.seed * 104729 + ci), "histories=300", "ops=10"])
         if p.returncode != 0:
-            raise ToolError("record der failed: " + p.stderr[-1500:])
+            vlib.recorder_failed(v, p, tr, "record der (seed %d)" % (v.seed * 104729 + ci))
+            break
         events += vlib.lint_trace(tr)
         tt = run_tlc("C20", "Trace_Der", "SPECIFICATION Spec\nPOSTCONDITION Accepted\nCHECK_DEADLOCK FALSE\n", tag="trace_%d" % ci, workers=1, env={"TRACE": tr},
                      deque=True, xss=True, coverage=False, heap="4g")
